@@ -121,6 +121,19 @@ func (s *walletSessionManager) getSession(authToken string) (*Session, error) {
 	return session, nil
 }
 
+// isSessionOfOtherUser tells whether the given token is a live session that belongs to a user other than userID.
+// It does not extend the session's expiry.
+func (s *walletSessionManager) isSessionOfOtherUser(authToken, userID string) bool {
+	sess, err := s.gstore.GetIFPresent(authToken)
+	if err != nil {
+		return false
+	}
+
+	session, ok := sess.(*Session)
+
+	return ok && session.user != userID
+}
+
 func wrapSessionError(err error) error {
 	if errors.Is(err, ErrInvalidAuthToken) {
 		return ErrWalletLocked
